@@ -123,6 +123,7 @@ func (e *qexec) blockedOnLock(w *qworker, states map[int64]string) bool {
 func (e *qexec) quiesce() bool {
 	stable := 0
 	spins := 0
+	lockSince := map[*qworker]time.Time{}
 	deadline := time.Now().Add(5 * time.Second)
 	for {
 		all := true
@@ -140,9 +141,26 @@ func (e *qexec) quiesce() bool {
 			switch w.status.Load() {
 			case stIdle, stGate, stDone:
 			default:
-				if !e.blockedInSelect(w, states) && !e.blockedOnLock(w, states) {
-					all = false
+				if e.blockedInSelect(w, states) {
+					break
 				}
+				// parked on the queue's mutex: a stop only when it lasts (100 ms) and the mutex really
+				// cannot be taken; a moment of contention is not
+				if e.blockedOnLock(w, states) {
+					if _, free := e.q.TryLen(); !free {
+						if lockSince[w].IsZero() {
+							lockSince[w] = time.Now()
+						}
+						if time.Since(lockSince[w]) > 100*time.Millisecond {
+							break
+						}
+					} else {
+						lockSince[w] = time.Time{}
+					}
+				} else {
+					lockSince[w] = time.Time{}
+				}
+				all = false
 			}
 		}
 		if all {
@@ -675,6 +693,10 @@ func checkC20(tier string, seed int64) int {
 		reports, total := racelog.Parse(prefix + "." + fmt.Sprint(os.Getpid()))
 		races = total
 		for _, r := range reports {
+			if r.HarnessOnly {
+				fmt.Printf("HARNESS-RACE (monitor defect, not a verdict about gohlslib): %s\n", r.Key)
+				continue
+			}
 			path := ev.Root + "/replays/C20/race-" + strings.NewReplacer("/", "_", "|", "--", "*", "", "(", "", ")", "").Replace(r.Key) + ".txt"
 			os.WriteFile(path, []byte(r.First), 0o644)
 			rep.Report("C20/race/"+r.Key, fmt.Sprintf("data race (%d reports) between %s; report in %s", r.Count, r.Key, path), map[string]any{"property": "C20", "race_report": path})
